@@ -163,6 +163,7 @@ class MapperLab:
         """run `method`; returns (function name, [PathSummary])"""
         I = self.I
         fn_ = impl_fn(impl, size, method)
+        self.size_bits = SIZES.get(size, 12) if size else 12
         st = self.setup(impl)
         S = size_ty(size) if size else None
         if method == 'translate':
@@ -330,7 +331,7 @@ class MapperLab:
                     j = b[1]
                     # the page's own bits (low bits of a huge page are zero)
                     x = addr.bits[i]
-                    if not (x == lit('page', j) or x == 0):
+                    if x != (lit('page', j) if j >= getattr(self, 'size_bits', 12) else 0):
                         ok = False
                         break
                 else:
